@@ -88,6 +88,7 @@ int main()
         std::ostringstream out;
         std::cerr << "case " << op << " N=" << N << " D=" << D << " k=" << f["k"] << " d=" << f["d"] << " " << f["method"]
                   << "\n";
+#ifndef V8_NO_ROUTINES
         if (op == "npe" || op == "lltsa" || op == "lpp")
         {
             DenseMatrix Wd = v8::parse_matrix(f["W"]);
@@ -108,7 +109,13 @@ int main()
             }
             out << "ok=1 lhs=" << show_matrix(pr.first) << " rhs=" << show_matrix(pr.second);
         }
-        else if (op == "embed")
+        else
+#else
+        if (op == "npe" || op == "lltsa" || op == "lpp")
+            out << "unavailable=1";
+        else
+#endif
+        if (op == "embed")
         {
             const std::string method = f["method"];
             IndexType k = std::stoi(f["k"]), d = std::stoi(f["d"]);
